@@ -54,6 +54,14 @@ def extra_instances(seed):
         'HomothetyOperator{tree}': lambda: core.HomothetyOperator(r(), tree),
         'DiagonalOperator{tree}': lambda: D(tree),
         'DiagonalInverseOperator{tree}': lambda: D(tree).I,
+        'DiagonalOperator{3 axes, cyclic}': lambda: diagonal.DiagonalOperator(r(3, 4, 2), axis_destination=(1, 2, 0),
+                                                                             in_structure=S((2, 3, 4))),
+        'DiagonalOperator{3 equal axes, cyclic}': lambda: diagonal.DiagonalOperator(r(3, 3, 3), axis_destination=(2, 3, 1),
+                                                                                   in_structure=S((2, 3, 3, 3))),
+        'DiagonalInverseOperator{3 axes, cyclic}': lambda: diagonal.DiagonalOperator(
+            r(4, 2, 3), axis_destination=(-1, -3, -2), in_structure=S((2, 3, 4))).I,
+        'BroadcastDiagonalOperator{2 axes swapped}': lambda: diagonal.BroadcastDiagonalOperator(
+            r(3, 2), axis_destination=(1, 0), in_structure=S((2, 3))),
         'RavelOperator{list}': lambda: axes.RavelOperator(0, 1, in_structure=lst),
         'ReshapeOperator{list}': lambda: axes.ReshapeOperator((-1, 2), in_structure=lst),
         'ReshapeTransposeOperator{list}': lambda: axes.RavelOperator(0, 1, in_structure=lst).T,
